@@ -221,6 +221,8 @@ void MDSDRV_Data::add_ins_fm_2op(uint16_t id, const Tag& tag)
 	int ins_id = tag_data[0];
 	try
 	{
+		if(ins_type.at(ins_id) != INS_FM)
+			throw std::out_of_range("not an FM instrument");
 		fm_data = data_bank.at(envelope_map.at(ins_id));
 		for(int i=0; i<4; i++)
 		{
